@@ -148,6 +148,26 @@ func genC18(ctx *Ctx) {
 		ctx.Count("expression")
 		ctx.Input(sx.L(sx.I(2), exprInput(text, sx.L(), t), existing, c18Uppers(text, existing)), len(vs) >= 2)
 	}
+	// every operator that is spelled as a word, in three random letter cases: the word is never taken for a variable
+	for rep := 0; rep < 3; rep++ {
+		mkv := func(n string) *Tree { return &Tree{Kind: "var", Text: n} }
+		var ts []*Tree
+		for _, op := range []string{"AND", "OR", "XOR", "LIKE", "NOTLIKE", "IN", "NOTIN"} {
+			ts = append(ts, &Tree{Kind: "bin", Op: op, Args: []*Tree{mkv("a"), mkv("b")}})
+		}
+		for _, op := range []string{"NOT", "ISNULL", "ISNOTNULL"} {
+			ts = append(ts, &Tree{Kind: "un", Op: op, Args: []*Tree{mkv("a")}})
+		}
+		for _, c := range []string{"TRUE", "FALSE"} {
+			ts = append(ts, &Tree{Kind: "bin", Op: "=", Args: []*Tree{mkv("a"), {Kind: "const", Text: c}}})
+		}
+		for _, t := range ts {
+			p := &printer{rnd: ctx.Rnd, parens: 0, noise: true}
+			text := p.at(t, 0)
+			ctx.Count("keyword-operator")
+			ctx.Input(sx.L(sx.I(2), exprInput(text, sx.L(), t), sx.List{}, c18Uppers(text, sx.List{})), true)
+		}
+	}
 	for _, s := range []string{"a + A", "f(x) + F(X)", "a[b] + \"A\"", "1 +", "", "TRUE and x", "\"NULL\" + null_", "Max(a, Min(b, A))"} {
 		ctx.Count("expression-special")
 		ex := sx.L(sx.L(sx.S("A"), sx.I(5)))
@@ -411,6 +431,8 @@ func runC18Expression(l sx.List) (sx.SX, string) {
 		code, _ := errCode(err)
 		if e2 := calc.SetExpression(text); e2 == nil {
 			fail = "the calculator accepted what the parser rejects"
+		} else if treeFromSX(e[3]) != nil {
+			fail = "an expression printed from a syntax tree was rejected: " + err.Error()
 		}
 		return sx.L(sx.I(code)), fail
 	}
